@@ -13,7 +13,7 @@ PROPS = {
     "C01": {
         "harness": "c01",
         "quick": {"workers": 8, "cases": 2000, "size": 30},
-        "thorough": {"workers": 16, "cases": 15000, "size": 40},
+        "thorough": {"workers": 16, "cases": 3000, "size": 40},
         "min_nontrivial_frac": 0.25,
         "min_tag_frac": {"verdict:included": 0.15, "verdict:not-included": 0.15},
         "rule": GEN_TA + "pairs (A,B) built by strategies indep/superset/ablate/split/leafmiss/detB/degenerate; every case runs the 8 implemented "
@@ -25,7 +25,7 @@ PROPS = {
     "C02": {
         "harness": "c02",
         "quick": {"workers": 8, "cases": 600, "size": 24},
-        "thorough": {"workers": 16, "cases": 8000, "size": 34},
+        "thorough": {"workers": 16, "cases": 1500, "size": 34},
         "min_nontrivial_frac": 0.25,
         "rule": GEN_TA + "pairs (A,B) with overlapping state numbers (Union, Intersection, IntersectionBU) and offset-disjoint numbers (UnionDisjointStates); "
                 "result languages compared with reference union/product, translation maps checked semantically (language from the result state = language from the "
@@ -37,7 +37,7 @@ PROPS = {
     "C03": {
         "harness": "c03",
         "quick": {"workers": 8, "cases": 2500, "size": 24},
-        "thorough": {"workers": 16, "cases": 30000, "size": 36},
+        "thorough": {"workers": 16, "cases": 15000, "size": 36},
         "min_nontrivial_frac": 0.3,
         "rule": GEN_TA + "single automata plus injected shapes (final state without rules + unreachable rule owner, no final state, rule over a never-productive child); "
                 "RemoveUnreachableStates / RemoveUselessStates (with and without translation map) compared by language with the input and checked for dead states/rules on the result; "
@@ -47,7 +47,7 @@ PROPS = {
     "C04": {
         "harness": "c04",
         "quick": {"workers": 8, "cases": 2000, "size": 24},
-        "thorough": {"workers": 16, "cases": 20000, "size": 36},
+        "thorough": {"workers": 16, "cases": 8000, "size": 36},
         "min_nontrivial_frac": 0.2,
         "rule": GEN_TA + "downward simulation on arbitrary automata, upward simulation on reference-trimmed automata, states renumbered 0..n-1 through a generated permutation, "
                 "n passed as NumStates; every pair (q,r) compared with the naive greatest fixpoint of the definition; 1/24 of the cases are large (20-150 states, a backbone of unary/binary rules through all states plus the generated rules). Non-trivial: the reference relation is neither the identity "
@@ -57,7 +57,7 @@ PROPS = {
     "C05": {
         "harness": "c05",
         "quick": {"workers": 8, "cases": 1500, "size": 20},
-        "thorough": {"workers": 16, "cases": 12000, "size": 30},
+        "thorough": {"workers": 16, "cases": 8000, "size": 30},
         "min_nontrivial_frac": 0.2,
         "rule": GEN_TA + "automata with sparse/dense numbers, useless states and (flavours 1,2) every state split in two copies to create simulation-equivalent states; "
                 "Reduce() / Reduce(TA_DOWNWARD): language equal to the input's, no more states, no more rules, and existence of a map from input states onto result states under which "
@@ -67,7 +67,7 @@ PROPS = {
     "C06": {
         "harness": "c06",
         "quick": {"workers": 8, "cases": 3000, "size": 16},
-        "thorough": {"workers": 16, "cases": 6000, "size": 22},
+        "thorough": {"workers": 16, "cases": 4000, "size": 22},
         "min_nontrivial_frac": 0.15,
         "rule": GEN_TA + "automata with <= 3 (thorough 4) states plus extra registered symbols, in the child's pristine global alphabet or a private OnTheFlyAlphabet; the alphabet S is read back "
                 "from the automaton's dictionary; Complement checked by: empty product with A, universality of A+C over S (exact reference inclusion), no foreign symbol, and "
@@ -77,7 +77,7 @@ PROPS = {
     "C14": {
         "harness": "c14",
         "quick": {"workers": 8, "cases": 6000, "size": 24},
-        "thorough": {"workers": 16, "cases": 20000, "size": 36},
+        "thorough": {"workers": 16, "cases": 10000, "size": 36},
         "min_nontrivial_frac": 0.2,
         "rule": GEN_TA + "automaton + total state map (identity / injective / merging / into sparse numbers) through ReindexStates(functor), ReindexStates(dst, functor, addFinalStates) into empty and "
                 "non-empty destinations, ReindexStates(weak translator) empty and pre-filled, CollapseStates, and an arity-preserving symbol map through TranslateSymbols; the result must be "
@@ -87,7 +87,7 @@ PROPS = {
     "C15": {
         "harness": "c15",
         "quick": {"workers": 8, "cases": 4000, "size": 24},
-        "thorough": {"workers": 16, "cases": 20000, "size": 36},
+        "thorough": {"workers": 16, "cases": 6000, "size": 36},
         "min_nontrivial_frac": 0.2,
         "rule": GEN_TA + "automata extended by chains of unary/binary rules (deep shortest trees), unproductive final states, leaf-only languages, empty languages; GetCandidateTree's result must be "
                 "language-included in the input (exact reference) and non-empty whenever the input is - also along a 6-step history on one object (queries interleaved with copy-/move-assignment from another automaton and the mutators). Non-trivial: non-empty language and (shallowest found witness of depth >= 3 or an unproductive final state).",
@@ -96,7 +96,7 @@ PROPS = {
     "C09": {
         "harness": "c09",
         "quick": {"workers": 8, "cases": 3000, "size": 24},
-        "thorough": {"workers": 16, "cases": 50000, "size": 34},
+        "thorough": {"workers": 16, "cases": 6000, "size": 34},
         "min_nontrivial_frac": 0.2,
         "min_tag_frac": {"verdict:included": 0.15, "verdict:not-included": 0.15},
         "rule": "rapidcheck generates 8-integer records; a pure decoder builds NFA pairs over <= 3 symbols (several start states, start states that are final, unreachable/dead states, symbols present in one operand only) "
@@ -111,7 +111,7 @@ PROPS = {
     "C10": {
         "harness": "c10",
         "quick": {"workers": 8, "cases": 2000, "size": 22},
-        "thorough": {"workers": 16, "cases": 20000, "size": 32},
+        "thorough": {"workers": 16, "cases": 10000, "size": 32},
         "min_nontrivial_frac": 0.3,
         "rule": "NFA pairs as for C09 (eps-acceptance, several start states, product states with exactly one initial component, dead/unreachable parts); results of Union, UnionDisjointStates, Intersection, "
                 "Reverse (also twice), RemoveUnreachableStates, RemoveUselessStates are read through DumpToString with the harness' own reader and compared by language with reference union/product/mirror/"
@@ -124,7 +124,7 @@ PROPS = {
     "C07": {
         "harness": "c07",
         "quick": {"workers": 8, "cases": 1000, "size": 22},
-        "thorough": {"workers": 16, "cases": 8000, "size": 30},
+        "thorough": {"workers": 16, "cases": 2500, "size": 30},
         "min_nontrivial_frac": 0.25,
         "min_tag_frac": {"verdict:included": 0.15, "verdict:not-included": 0.15, "two-children-with-several-macrostates": 0.03},
         "rule": GEN_TA + "pairs as for C01 with the split/ablate/leafmiss strategies weighted up; both BDD encodings are loaded through the Timbuk loader; implemented selections (BU: upward NOSIM via CLI protocol, "
@@ -136,7 +136,7 @@ PROPS = {
     "C08": {
         "harness": "c08",
         "quick": {"workers": 8, "cases": 1200, "size": 30, "min_records": 12},
-        "thorough": {"workers": 16, "cases": 12000, "size": 44, "min_records": 12},
+        "thorough": {"workers": 16, "cases": 2500, "size": 44, "min_records": 12},
         "min_nontrivial_frac": 0.3,
         "rule": "histories of 4-24 steps over pools of <= 6 handles per BDD encoding built from three generated automata (<= 4-5 states; the first two are a related pair built by the split/superset/ablate strategies so that their product is rich; every history starts with their plain products in both operand orders and both encodings): load into a fresh handle (dump must denote the generated language), "
                 "copy-construct, copy-assign, Union (with/without maps), UnionDisjointStates (only when the two dumps taken before the call have disjoint state sets), Intersection, RemoveUnreachableStates, "
@@ -148,7 +148,7 @@ PROPS = {
     "C11": {
         "harness": "c11",
         "quick": {"workers": 8, "cases": 5000, "size": 36, "min_records": 14},
-        "thorough": {"workers": 16, "cases": 12000, "size": 50, "min_records": 14},
+        "thorough": {"workers": 16, "cases": 8000, "size": 50, "min_records": 14},
         "min_nontrivial_frac": 0.3,
         "rule": "histories of 6-32 steps over <= 6 live ExplicitTreeAut and <= 4 live ExplicitFiniteAut handles: default-construct, build/load, copy-construct (all four copyTrans/copyFinal combinations), copy-assign (incl. self), "
                 "move-construct, move-assign, AddTransition, SetStateFinal, SetStateStart, EraseFinalStates, Clear, destroy, value-producing operations (Union, UnionDisjointStates, Intersection(BU), RemoveUnreachableStates, "
@@ -161,7 +161,7 @@ PROPS = {
     "C12": {
         "harness": "c12",
         "quick": {"workers": 8, "cases": 4000, "size": 40, "min_records": 6},
-        "thorough": {"workers": 16, "cases": 20000, "size": 70, "min_records": 6},
+        "thorough": {"workers": 16, "cases": 10000, "size": 70, "min_records": 6},
         "min_nontrivial_frac": 0.3,
         "rule": "histories of AddTransition (5 states incl. a far one, 4 numeric symbols each used with arities 0-3, duplicates, re-adding an existing rule through both overloads), SetStateFinal, SetStatesFinal, EraseFinalStates, Clear on one "
                 "ExplicitTreeAut; after every step the range-for iteration (as a multiset: each rule exactly once), ContainsTransition on every model rule and on generated absent rules (other parent / symbol / arity / child / unknown parent), "
@@ -172,7 +172,7 @@ PROPS = {
     "C16": {
         "harness": "c16",
         "quick": {"workers": 8, "cases": 5000, "size": 30, "min_records": 4},
-        "thorough": {"workers": 16, "cases": 80000, "size": 50, "min_records": 4},
+        "thorough": {"workers": 16, "cases": 12000, "size": 50, "min_records": 4},
         "min_nontrivial_frac": 0.2,
         "rule": "labelled transition systems with 1-8 (thorough 14) states, 1-4 labels, generated edges (states without in/out edges, several labels between the same states; exact duplicates of an edge kept in 1/8 of the cases), "
                 "initial partition = single block (computeSimulation(size) / computeSimulation()) or a generated partition into non-empty blocks with a generated preorder on blocks (reflexive transitive closure of "
@@ -183,7 +183,7 @@ PROPS = {
     "C17": {
         "harness": "c17",
         "quick": {"workers": 8, "cases": 2000, "size": 40, "min_records": 6},
-        "thorough": {"workers": 16, "cases": 25000, "size": 70, "min_records": 6},
+        "thorough": {"workers": 16, "cases": 12000, "size": 70, "min_records": 6},
         "min_nontrivial_frac": 0.08,
         "rule": "histories over a pool of <= 7 OndriksMTBDD handles (leaf type int, or OrdVector<size_t> in 1/3 of the cases) over 6 variables: constructor (cube with don't-cares, value, default), constant, Apply1/2/3 with "
                 "table-driven leaf operations (arbitrary functions, max, min), Project (variable set, idempotent combiner max/min), Rename (strictly increasing map), ExtendWith (prefix cube above all variables of the operand), "
@@ -196,7 +196,7 @@ PROPS = {
     "C18": {
         "harness": "c18",
         "quick": {"workers": 8, "cases": 2000, "size": 50, "min_records": 8},
-        "thorough": {"workers": 16, "cases": 30000, "size": 70, "min_records": 8},
+        "thorough": {"workers": 16, "cases": 8000, "size": 70, "min_records": 8},
         "min_nontrivial_frac": 0.3,
         "rule": "histories over a pool of heap-allocated MTBDD handles: construct, constant, copy, assignment (incl. self-assignment and between handles sharing a root), "
                 "Apply1/2/3 and Project through functor OBJECTS that are re-used across calls (as library code does), destruction in generated order (also implicit destruction by overwriting a pool slot), read-only visitors; after every step all live handles must still equal their truth tables (ASan: no "
@@ -208,7 +208,7 @@ PROPS = {
         "harness": "c13",
         "custom": "c13",
         "quick": {"workers": 8, "cases": 2000, "size": 24, "fuzz_jobs": 4, "fuzz_seconds": 60},
-        "thorough": {"workers": 16, "cases": 20000, "size": 36, "fuzz_jobs": 16, "fuzz_seconds": 600},
+        "thorough": {"workers": 16, "cases": 8000, "size": 36, "fuzz_jobs": 16, "fuzz_seconds": 300},
         "min_nontrivial_frac": 0.2,
         "rule": "(a) generated AutDescriptions (state/symbol names of 1-6 printable ASCII characters without whitespace, ( ) , : and the substring '->'; nullary rules; empty final/symbol/state sections; empty automaton name): "
                 "ParseString(Serialize(d)) == d under the library's relaxed equality, twice, and the same description written by the harness in another textual form (nullary rules with parentheses, missing or re-ordered "
@@ -223,7 +223,7 @@ PROPS = {
 PROPS["C19"] = {
     "harness": "c19",
     "quick": {"workers": 8, "cases": 300, "size": 22, "lib_timeout": 5},
-    "thorough": {"workers": 16, "cases": 4000, "size": 30, "lib_timeout": 20},
+    "thorough": {"workers": 16, "cases": 800, "size": 30, "lib_timeout": 20},
     "min_nontrivial_frac": 0.3,
     "min_tag_frac": {"source:repository-corpus": 0.05},
     "rule": GEN_TA + "7/8 of the cases are generated pairs, 1/8 are pairs/triples of the automata shipped in the repository (tests/aut_timbuk_smaller, automata/small_timbuk, automata/moderate_artmc_timbuk). A twin of every operand is "
@@ -240,7 +240,7 @@ PROPS["C20"] = {
     "custom": "c20",
     "quick": {"workers": 8, "cases": 300, "size": 36, "min_records": 30, "lib_timeout": 20, "reuse_scale": 0.1, "fuzz_jobs": 4, "fuzz_seconds": 60,
               "memcheck_generated": 100, "memcheck_corpus": 60},
-    "thorough": {"workers": 16, "cases": 4000, "size": 50, "min_records": 34, "lib_timeout": 30, "reuse_scale": 1.0, "fuzz_jobs": 16, "fuzz_seconds": 600,
+    "thorough": {"workers": 16, "cases": 2000, "size": 50, "min_records": 34, "lib_timeout": 30, "reuse_scale": 0.3, "fuzz_jobs": 16, "fuzz_seconds": 300,
                  "memcheck_generated": 400, "memcheck_corpus": 1200},
     "min_nontrivial_frac": 0.1,
     "rule": "(0) every other harness (C01-C19) re-run in sanitizer-only mode on a fraction of its budget (semantic oracles ignored, a sanitizer report or crash in a library call is the only failure); (a) generated workloads "
